@@ -106,6 +106,7 @@ class VQueue:
         self._s = sched
         self.qid = sched.new_queue(self)
         self.items = []
+        self.wedged = False  # a writer died while holding the cross-process write lock
 
     # parent side
     def get(self, block=True, timeout=None):
@@ -360,6 +361,8 @@ class Exec:
                 op = w.ops[w.pos]
                 if op[0] == "put" and cap is not None and w.q is not None and len(w.q.items) >= cap:
                     continue  # the pipe is full: the worker's feeder blocks until the parent reads
+                if op[0] == "put" and w.q is not None and w.q.wedged:
+                    continue  # another writer died while holding the queue's cross-process write lock
                 if op[0] == "acq" and op[1].value <= 0:
                     continue  # blocked in acquire()
             out.append(w)
@@ -371,6 +374,10 @@ class Exec:
         f = self.faults.get(w.wid)
         if f is not None and f["code"] < 0 and w.pos == f["k"]:
             w.done, w.code = True, f["code"]
+            if f.get("lock") and w.q is not None:
+                # death in the middle of a delivery: nothing of the message arrives, and the write lock that all
+                # writers of this queue share stays taken for ever
+                w.q.wedged = True
             return ("die", w.wid)
         if w.pos < len(w.ops):
             op = w.ops[w.pos]
@@ -421,7 +428,7 @@ class Exec:
                 frames.append((fr.f_code.co_name, fr.f_lineno, tuple(loc)))
             fr = fr.f_back
         env = tuple((w.wid, w.started, w.pos, w.delivered, w.done, w.code) for w in self.workers) + tuple(x.value for x in self.sems)
-        qs = tuple(tuple(repr(getattr(x, "priority", None)) for x in q.items) for q in self.queues)
+        qs = tuple((q.wedged,) + tuple(repr(getattr(x, "priority", None)) for x in q.items) for q in self.queues)
         stut = (self.last_empty, self.since_empty_events == 0)
         return fw.h64(repr((frames, env, qs, self.out.getvalue(), self.created, self.started_n, self.joined_n, stut)))
 
